@@ -279,6 +279,7 @@ class Def:
         self.cparams = cparams      # [{'name','prim','default':int|None}]
         self.variants = variants    # [(vname, style 'named'|'tuple'|'unit', [(fname, texpr)])]
         self.where = where or []
+        self.discr = {}     # variant name -> explicit discriminant (unit variants of deep-copy enums only)
         self.module = ''            # near-miss mutants live in a sub-module, under the same identifier
 
     def path(self):
@@ -351,7 +352,7 @@ class Def:
                 elif style == 'tuple':
                     vs.append('%s(%s)' % (vname, ''.join('%s, ' % te_rust(te, self) for fn, te in fields)))
                 else:
-                    vs.append(vname)
+                    vs.append(vname + (' = %d' % self.discr[vname] if vname in self.discr else ''))
             out.append('pub enum %s%s%s { %s }' % (self.name, self.generics_decl(), where, ', '.join(vs)))
         # Show / FromTerm, generic over the parameters (one impl serves the type and its ε-copy form)
         tp = [p['name'] for p in self.tparams]
@@ -869,6 +870,20 @@ def stress_defs(prefix='K'):
     c3 = Def(prefix + 'C3', False, 'none', [], 1, [], [{'name': 'W', 'prim': 'u128', 'default': None}],
              [(prefix + 'C3', 'named', [('x', P('u32'))])])
     defs.append(c3)
+    # round 5: a 128-aligned zero-copy structure twice behind a string (full-copy has no alignment limit; ε-copy and the
+    # loaders do: exercised only by the checks listed in Ty.known); items whose size is not a multiple of their unit
+    # (RangeTo<[u16; 2]>: size 4 = unit 4, alignment 2; with a u16 after it: size 6, unit 4); long non-ASCII type names
+    # of both byte parities; a deep-copy enum with explicit discriminants
+    z9 = zs('Z9', [('a', P('u8')), ('b', P('u32'))], reprs=('C', 'align(128)'), align=128)
+    d6 = Def(prefix + 'D6', False, 'none', [], 1, [], [],
+             [(prefix + 'D6', 'named', [('s', ('ty', Str())), ('a', ('ty', Adt(z9, [], []))), ('t', P('u8')), ('b', ('ty', Adt(z9, [], []))), ('v', ('vec', ('ty', Adt(z9, [], []))))])])
+    defs.append(d6)
+    z10 = zs('Z10', [('a', ('ty', Range('t', Array(Prim('u16'), 2)))), ('b', P('u16'))])
+    for nm in (prefix + '\u00e9' * 130, prefix + 'X' + '\u00e9' * 130):
+        defs.append(Def(nm, False, 'none', [], 1, [], [], [(nm, 'named', [('x', P('u16')), ('s', ('ty', Str()))])]))
+    x1 = Def(prefix + 'X1', True, 'none', [], 1, [], [], [('Low', 'unit', []), ('Mid', 'unit', []), ('High', 'unit', []), ('Last', 'unit', [])])
+    x1.discr = {'Low': 1, 'High': 7}
+    defs.append(x1)
     return defs
 
 
